@@ -1,13 +1,14 @@
 package binder
 
 import (
-	"github.com/gofiber/utils/v2"
 	"github.com/valyala/fasthttp"
 )
 
 // v is the header binder for header request body.
 type HeaderBinding struct {
 	EnableSplitting bool
+	// Immutable makes the binder copy keys and values out of the request buffers (Config.Immutable)
+	Immutable bool
 }
 
 // Name returns the binding name.
@@ -24,8 +25,8 @@ func (b *HeaderBinding) Bind(req *fasthttp.Request, out any) error {
 			return
 		}
 
-		k := utils.UnsafeString(key)
-		v := utils.UnsafeString(val)
+		k := toString(key, b.Immutable)
+		v := toString(val, b.Immutable)
 		err = formatBindData(out, data, k, v, b.EnableSplitting, false)
 	})
 
@@ -39,4 +40,5 @@ func (b *HeaderBinding) Bind(req *fasthttp.Request, out any) error {
 // Reset resets the HeaderBinding binder.
 func (b *HeaderBinding) Reset() {
 	b.EnableSplitting = false
+	b.Immutable = false
 }
